@@ -471,7 +471,7 @@ class Planner:
             s, g = spec.gen_root(r, named, n_rules=r.randint(2, 4))
             info = ModInfo(next_id, mod_name(next_id) if named else None, None, s, g)
         op = {'op': 'compile', 'mod': next_id, 'desc': info.desc, 'name': info.name, 'extends': info.extends}
-        if r.random() < 0.3:
+        if r.random() < 0.6:
             op['include_source'] = True
         if 'reenter' in kinds and r.random() < 0.3:
             # user code that runs DURING the construction: a Python section of the grammar (executed by
@@ -518,11 +518,18 @@ class Planner:
         else:
             kinds = [k for k in self.kinds_pool if fr.random() < (0.9 if k == 'preempt' else 0.7)]
             n_clients = wr.choice([1, 2, 2, 2, 3, 3, 3, 4] if self.scale == 1 else [2, 3, 3, 4, 4, 5, 6])
+        # the canonical schedule for code that is not re-entrant: two clients each START with a construction,
+        # the first is pre-empted at a uniformly chosen step of it and the second runs to completion in the gap
+        race = (not baseline) and 'compile' in self.kinds_pool and fr.random() < 0.05
+        if race:
+            kinds = sorted(set(kinds) | {'preempt', 'compile'})
+            n_clients = 2
         hot = wr.choice(sorted(self.infos))
         # "constants of the application": some texts of the hot module are one object for every client
         ht = self.infos[hot].texts
         self.shared_texts = set(wr.sample(ht, min(len(ht), 2))) if (ht and wr.random() < 0.3) else set()
         clients = []
+        suspects = {}
         next_id = max(self.infos) + 1
         # names (re)defined by compile operations, per client, to keep the one documented bound:
         # a name is never re-bound while another client's compile extends that same name
@@ -533,6 +540,12 @@ class Planner:
             n_ops = wr.randint(1, 6 * self.scale)
             for _ in range(n_ops):
                 x = wr.random()
+                if race and not ops:
+                    x = 0.0
+                elif race and len(ops) <= 3 and ops[0]['op'] == 'compile' and not ops[0].get('fails') and ops[0]['mod'] in self.infos:
+                    # ... followed by calls on the module it has just built
+                    ops.append(self.gen_parse(ops[0]['mod'], kinds))
+                    continue
                 live = sorted(self.infos)
                 if 'compile' in kinds and x < 0.12 and next_id < 12 * self.scale:
                     forbidden = set()
@@ -565,6 +578,7 @@ class Planner:
                             info.texts = make_texts(wr, info, n=2)
                             info.owner = ci
                             self.infos[next_id] = info
+                            suspects[next_id] = [info.wire(t) for t in info.texts[:10]]
                         next_id += 1
                     continue
                 if 'scramble' in kinds and x < 0.2 and ops and ops[-1]['op'] == 'parse':
@@ -630,12 +644,31 @@ class Planner:
                 pol = {'kind': 'one-shot', 'j': sr.randint(1, 90)}
             else:
                 pol = {'kind': 'targeted', 'q': sr.choice([0.1, 0.3, 0.6])}
+        if race and clients[0] and clients[0][0]['op'] == 'compile' and clients[1] and clients[1][0]['op'] == 'compile':
+            op0 = clients[0][0]
+            pc = self.chains.get(op0['extends'], ()) if op0.get('extends') is not None else ()
+            mon.TRACE = []
+            try:
+                steps0 = U.reference_compile(pc, op0, watch_library=True)['steps']
+                trace = mon.TRACE
+            finally:
+                mon.TRACE = None
+            u = sr.randint(1, max(2, steps0))
+            # half of the time: uniformly among the steps of the construction's own logic (grammar.py, translator.py,
+            # expressions/) rather than of its two large sub-engines, the generated meta-parser and the code emitter
+            own = [i + 1 for i, fn in enumerate(trace) if ('/sourcer/' in fn and not fn.endswith('/sourcer/parser.py'))]
+            if own and sr.random() < 0.5:
+                u = sr.choice(own)
+            pol = {'kind': 'race', 'u': u, 'own_logic_steps': len(own), 'steps': steps0}
         pol['seed'] = rngm.derive('policy', self.seed)
         watch_lib = any(op['op'] == 'compile' for ops in clients for op in ops)
         return {
             'prop': self.prop, 'verif_seed': verif_seed, 'index': index, 'run_seed': self.seed,
             'universe': [m.plan_entry() for m in infos],
             'clients': clients, 'probes': probes, 'policy': pol, 'kinds': kinds,
+            # texts for modules built by constructions of the run: used for extra probes when such a module's
+            # generated source differs from what a pristine process generates for the same description
+            'suspect_texts': {str(k): v for k, v in suspects.items()},
             'baseline': baseline, 'watch_library': watch_lib,
             # the first run on a universe builds it with the real Grammar(); the others exec the
             # code generated by an earlier real Grammar() call for the same description
@@ -663,6 +696,8 @@ def make_policy(pol, schedule=None):
         return mon.FirstVisit(r, pol['q'])
     if k == 'one-shot':
         return mon.OneShot(r, pol['j'])
+    if k == 'race':
+        return mon.RaceAt(pol['u'])
     if k == 'instr-shot':
         p = mon.InstrShot(r, pol['j'])
         p.cap = pol.get('cap', 3)
@@ -776,12 +811,29 @@ def simulate(plan, schedule=None, wall_timeout=120.0, attach=None):
                 mon.unwatch(mon.library_codes())
         env.policy = None
         probe_records = U.run_inline(env, lambda ctx: [U.run_op(env, ctx, op) for op in plan['probes']])
+        # a lead, not a verdict: a module built during the run whose generated source differs from the
+        # source a pristine process generates for the same description gets a full set of extra probes
+        extra_ops = []
+        for mid, src in sorted(env.built_sources.items()):
+            h = env.handles.get(mid)
+            if src is None or h is None or not h.ok:
+                continue
+            want = U.pristine_source(chains.get(mid, ())) if chains.get(mid) else None
+            if want is None or want == src:
+                continue
+            env.count('built_module_source_differs_from_pristine')
+            for t in (plan.get('suspect_texts') or {}).get(str(mid), []):
+                extra_ops.append({'op': 'parse', 'mod': mid, 'entry': 'parse', 'text': t, 'pos': 0, 'full': True})
+                extra_ops.append({'op': 'parse', 'mod': mid, 'entry': 'parse', 'text': t, 'pos': 0, 'full': False})
+        extra_records = U.run_inline(env, lambda ctx: [U.run_op(env, ctx, op) for op in extra_ops]) if extra_ops else []
         flat = []
         for ci, ops in enumerate(plan['clients']):
             for oi, (op, rec) in enumerate(zip(ops, records[ci])):
                 flatten_records(op, rec, ['client', ci, oi], flat)
         for pi, (op, rec) in enumerate(zip(plan['probes'], probe_records)):
             flatten_records(op, rec, ['probe', pi], flat)
+        for pi, (op, rec) in enumerate(zip(extra_ops, extra_records)):
+            flatten_records(op, rec, ['probe-after-source-divergence', pi], flat)
         result['flat'] = flat
         result['records'] = records
         result['probe_records'] = probe_records
